@@ -45,7 +45,7 @@ cC == Raw(3, 10, 20)
 cX == Aggr(0, 10, 4, 5, 0)
 cY == Aggr(0, 10, 4, 6, 0)   \* shares its count sub-chunk with cX
 cZ == Aggr(0, 10, 7, 6, 0)   \* shares its sum sub-chunk with cY
-ChunkListU == << <<cA>>, <<cX>>, <<>>, <<cY>>, <<cC, cA>>, <<cB>>, <<cX, cZ>>, <<cZ>> >>
+ChunkListU == << <<cA>>, <<cX>>, <<>>, <<cY>>, <<cX, cZ>>, <<cC, cA>>, <<cB>>, <<cZ>> >>
 ChunkLists == { ChunkListU[i] : i \in 1..NChunkLists }
 
 FrameU == { [ls |-> l, chunks |-> c] : l \in Lsets, c \in ChunkLists }
@@ -62,6 +62,7 @@ AsSent(base, strips, without) ==
 World(bases, strips, without) ==
     [stores |-> [i \in DOMAIN strips |-> [frames |-> AsSent(bases[i], strips[i], without), strips |-> strips[i]]],
      without |-> without]
+TotalLen(bb) == LET f[n \in 0..Len(bb)] == IF n = 0 THEN 0 ELSE f[n - 1] + Len(bb[n]) IN f[Len(bb)]
 (* The merge resolves ties between stores in every possible way, so the order of the stores is  *)
 (* immaterial: stores are listed by non-increasing stream length.  At most 3 stores.            *)
 LenVecs(ns, maxper, maxtot) ==
@@ -69,13 +70,20 @@ LenVecs(ns, maxper, maxtot) ==
                                   /\ \A i \in 1..3 : i > ns => n[i] = 0 }
 (* strips is irrelevant when nothing is to be stripped: one representative (all TRUE) *)
 StripOpts(ns) == { <<[i \in 1..ns |-> TRUE], <<>> >> } \cup { <<ss, <<2>> >> : ss \in [1..ns -> BOOLEAN] }
-WorldsFor(ns, maxper, maxtot) ==
-    UNION { { World(<<b1, b2, b3>>, so[1], so[2]) : b1 \in SortedSeqs(n[1]), b2 \in SortedSeqs(n[2]), b3 \in SortedSeqs(n[3]),
-                                                   so \in StripOpts(ns) } : n \in LenVecs(ns, maxper, maxtot) }
+(* all worlds within the bounds, as <<b1, b2, b3, stripOption>> (World() is applied to those picked) *)
+AllSeqs(maxper) == UNION { SortedSeqs(n) : n \in 0..maxper }
+WorldTuples(ns, maxper, maxtot) ==
+    LET S == AllSeqs(maxper)
+        S2 == IF ns >= 2 THEN S ELSE {<<>>}
+        S3 == IF ns >= 3 THEN S ELSE {<<>>}
+    IN { t \in S \X S2 \X S3 \X StripOpts(ns) :
+           [i \in 1..3 |-> Len(t[i])] \in LenVecs(ns, maxper, maxtot) }
 
 (* ---------------- state ---------------- *)
-VARIABLES w,        \* the world
-          streams,  \* store -> the sequence of frames its respSet yields (constant after Init)
+VARIABLES phase,    \* "build": the world is being put together frame by frame; "run": the request runs
+          bases,    \* store -> the label-sorted frames chosen so far (with full label sets)
+          w,        \* the world
+          streams,  \* store -> the sequence of frames its respSet yields (constant after Start)
           rb,       \* response batch size of the request
           pos,      \* store -> index of its current head frame
           dbuf,     \* deduplicator: buffered frames of the current label set
@@ -83,18 +91,33 @@ VARIABLES w,        \* the world
           pend,     \* batch server: series waiting for a full batch
           msgs,     \* messages sent to the client (each a sequence of series)
           done
-vars == <<w, streams, rb, pos, dbuf, out, pend, msgs, done>>
+vars == <<phase, bases, w, streams, rb, pos, dbuf, out, pend, msgs, done>>
 
 Live == { i \in DOMAIN streams : pos[i] <= Len(streams[i]) }
 HeadOf(i) == streams[i][pos[i]]
 
-Init == /\ \E n \in LenVecs(NStores, MaxPerStore, MaxTotal) :
-             \E b1 \in SortedSeqs(n[1]), b2 \in SortedSeqs(n[2]), b3 \in SortedSeqs(n[3]), so \in StripOpts(NStores) :
-                w = World(<<b1, b2, b3>>, so[1], so[2])
-        /\ streams = [i \in DOMAIN w.stores |-> StreamOf(w.stores[i], Without(w))]
-        /\ rb \in RespBatch
-        /\ pos = [i \in DOMAIN w.stores |-> 1]
+(* The worlds are enumerated by the state machine itself (one frame per step, store after      *)
+(* store, so that TLC's workers share the enumeration); every world is built exactly once.       *)
+Init == /\ phase = "build" /\ bases = [i \in 1..NStores |-> <<>>]
+        /\ w = <<>> /\ streams = <<>> /\ rb = 0 /\ pos = <<>>
         /\ dbuf = <<>> /\ out = <<>> /\ pend = <<>> /\ msgs = <<>> /\ done = FALSE
+
+AddFrame(i, fr) ==
+    /\ phase = "build"
+    /\ \A j \in (i + 1)..NStores : bases[j] = <<>>
+    /\ Len(bases[i]) < MaxPerStore /\ TotalLen(bases) < MaxTotal
+    /\ i > 1 => Len(bases[i]) < Len(bases[i - 1])
+    /\ bases[i] # <<>> => LsCmp(bases[i][Len(bases[i])].ls, fr.ls) <= 0
+    /\ bases' = [bases EXCEPT ![i] = Append(@, fr)]
+    /\ UNCHANGED <<phase, w, streams, rb, pos, dbuf, out, pend, msgs, done>>
+
+Start(so, b) ==
+    /\ phase = "build" /\ bases[1] # <<>>
+    /\ phase' = "run"
+    /\ w' = World(bases, so[1], so[2])
+    /\ streams' = [i \in 1..NStores |-> StreamOf(w'.stores[i], Without(w'))]
+    /\ rb' = b /\ pos' = [i \in 1..NStores |-> 1]
+    /\ UNCHANGED <<bases, dbuf, out, pend, msgs, done>>
 
 (* srv.Send(series) through batchableServer *)
 Send(s) ==
@@ -105,43 +128,49 @@ Send(s) ==
 
 (* one respHeap.Next(): the loser tree yields a minimal head, the deduplicator absorbs it *)
 TreeNext(i) ==
-    /\ ~done /\ i \in Live
+    /\ phase = "run" /\ ~done /\ i \in Live
     /\ \A j \in Live : LsCmp(HeadOf(i).ls, HeadOf(j).ls) <= 0
     /\ pos' = [pos EXCEPT ![i] = @ + 1]
     /\ IF dbuf = <<>> \/ dbuf[1].ls = HeadOf(i).ls
          THEN dbuf' = Append(dbuf, HeadOf(i)) /\ UNCHANGED <<out, pend, msgs>>
          ELSE Send(Chain(dbuf)) /\ dbuf' = <<HeadOf(i)>>
-    /\ UNCHANGED <<w, streams, rb, done>>
+    /\ UNCHANGED <<phase, bases, w, streams, rb, done>>
 
 (* the tree is exhausted: the deduplicator hands out what it still buffers *)
 DedupDrain ==
-    /\ ~done /\ Live = {} /\ dbuf # <<>>
+    /\ phase = "run" /\ ~done /\ Live = {} /\ dbuf # <<>>
     /\ Send(Chain(dbuf)) /\ dbuf' = <<>>
-    /\ UNCHANGED <<w, streams, rb, pos, done>>
+    /\ UNCHANGED <<phase, bases, w, streams, rb, pos, done>>
 
 (* Flush() of the batch server *)
 Flush ==
-    /\ ~done /\ Live = {} /\ dbuf = <<>>
+    /\ phase = "run" /\ ~done /\ Live = {} /\ dbuf = <<>>
     /\ msgs' = (IF pend # <<>> THEN Append(msgs, pend) ELSE msgs) /\ pend' = <<>>
     /\ done' = TRUE
-    /\ UNCHANGED <<w, streams, rb, pos, dbuf, out>>
+    /\ UNCHANGED <<phase, bases, w, streams, rb, pos, dbuf, out>>
 
 Finished == done /\ UNCHANGED vars      \* the request has returned
-Next == (\E i \in DOMAIN streams : TreeNext(i)) \/ DedupDrain \/ Flush \/ Finished
+Next == \/ /\ phase = "build"
+           /\ \/ \E i \in 1..NStores, fr \in FrameU : AddFrame(i, fr)
+              \/ \E so \in StripOpts(NStores), b \in RespBatch : Start(so, b)
+        \/ /\ phase = "run"
+           /\ \/ \E i \in 1..NStores : TreeNext(i)
+              \/ DedupDrain \/ Flush \/ Finished
 Spec == Init /\ [][Next]_vars
 
 (* ---------------- C03 ---------------- *)
 Received == FlattenMsgs(msgs)
 (* the statement, on the final response *)
-C03_Response == done => C03Clauses(w, Received) = {}
+C03_Response == (phase = "run" /\ done) => C03Clauses(w, Received) = {}
 (* inductive core of "each label set once, sorted": what has been emitted is strictly sorted  *)
 (* and lies strictly before everything still buffered or to come                                *)
-C03_EmittedIsFinal ==
+C03_EmittedIsFinal == phase = "run" =>
     /\ \A i \in 1..(Len(out) - 1) : LsCmp(out[i].ls, out[i + 1].ls) < 0
     /\ out # <<>> => /\ \A i \in Live : LsCmp(out[Len(out)].ls, HeadOf(i).ls) < 0
                      /\ dbuf # <<>> => LsCmp(out[Len(out)].ls, dbuf[1].ls) < 0
 (* batching neither loses, reorders nor oversizes *)
-C03_Batching == /\ Received \o pend = out
+C03_Batching == phase = "run" =>
+                /\ Received \o pend = out
                 /\ \A m \in DOMAIN msgs : Len(msgs[m]) <= (IF rb <= 1 THEN 1 ELSE rb)
                 /\ done => msgs = Batches(out, rb)
 (* tie resolution in the tree has no influence: the run equals the functional description *)
@@ -150,11 +179,12 @@ C03_TieIndependent == done => SameResult(Received, AlgoOutput(w))
 (* state that is not finished has a successor.                                                  *)
 SumPos == LET f[n \in 0..Len(pos)] == IF n = 0 THEN 0 ELSE f[n - 1] + pos[n] IN f[Len(pos)]
 Progress == SumPos + Len(out) + (IF done THEN 1 ELSE 0) + (IF Live = {} /\ dbuf = <<>> THEN 1 ELSE 0)
-C03_Progresses == [][done \/ Progress' > Progress]_vars
+C03_Progresses == [][phase = "build" \/ done \/ Progress' > Progress]_vars
 
 (* ---------------- leg B: worlds for the harness ---------------- *)
 CasesFile == IF "VERIF_CASES" \in DOMAIN IOEnv THEN IOEnv.VERIF_CASES ELSE "cases.ndjson"
-WorldSeq == SetToSeq(WorldsFor(CaseStores, CasePerStore, CaseTotal))
-CaseSeq == SetToSeq({ WorldSeq[i] : i \in { j \in 1..Len(WorldSeq) : j % CaseStride = 0 } })
+TupleSeq == SetToSeq(WorldTuples(CaseStores, CasePerStore, CaseTotal))
+CaseSeq == LET idx == SetToSeq({ j \in 1..Len(TupleSeq) : j % CaseStride = 0 })
+           IN [k \in 1..Len(idx) |-> LET t == TupleSeq[idx[k]] IN World(<<t[1], t[2], t[3]>>, t[4][1], t[4][2])]
 ASSUME ndJsonSerialize(CasesFile, CaseSeq)
 =============================================================================
